@@ -2,6 +2,7 @@ package streams
 
 import (
 	"context"
+	"github.com/lmorg/murex/utils/verifhook"
 	"os"
 	"sync"
 	"sync/atomic"
@@ -62,16 +63,20 @@ func (stdin *Stdin) File() *os.File {
 
 // Open the stream.Io interface for another dependant
 func (stdin *Stdin) Open() {
+	verifhook.Gate(stdin, "open")
 	stdin.mutex.Lock()
 	atomic.AddInt32(&stdin.dependents, 1)
+	verifhook.Emit(stdin, "open", "", int64(stdin.dependents))
 	stdin.mutex.Unlock()
 }
 
 // Close the stream.Io interface
 func (stdin *Stdin) Close() {
+	verifhook.Gate(stdin, "close")
 	stdin.mutex.Lock()
 
 	i := atomic.AddInt32(&stdin.dependents, -1)
+	verifhook.Emit(stdin, "close", "", int64(i))
 	panicOnNegDeps(i)
 
 	stdin.mutex.Unlock()
@@ -80,6 +85,8 @@ func (stdin *Stdin) Close() {
 // ForceClose forces the stream.Io interface to close. This should only be called by a STDIN reader
 func (stdin *Stdin) ForceClose() {
 	if stdin.forceClose != nil {
+		verifhook.Gate(stdin, "fc")
 		stdin.forceClose()
+		verifhook.Emit(stdin, "fc", "")
 	}
 }
